@@ -724,8 +724,17 @@ class Discharger:
             allf = facts + self.shape_facts(f, goal) + L.nonneg_facts([goal[0]] + [c_[0] for c_ in facts])
             if L.entails(allf, goal):
                 continue
-            vs = L.lin_vars(goal[0])
             params = {f.local_name(p) for p in range(1, f.argc + 1)}
+            if f.key not in self.entries and goal[1] == ">=":
+                # a goal over a loop variable / opaque value with known bounds in terms of the parameters
+                # (`pad[i]` for `i in 0..key.len()`): the bound substituted for the variable gives a
+                # sufficient condition over the parameters alone, which can be lifted to the callers
+                g2 = self.strengthen_to_params(goal, self.shape_facts(f, goal), params)
+                if g2 is not None:
+                    goal = g2
+                    if L.entails(allf, goal):
+                        continue
+            vs = L.lin_vars(goal[0])
             liftable = f.key not in self.entries and all(
                 (isinstance(v, tuple) and ((v[0] in ("len", "local", "some") and v[1] in params) or v[0] == "constparam")) for v in vs)
             split = None if liftable else self.split_multidef(f, goal, facts, econs, params)
@@ -815,6 +824,39 @@ class Discharger:
             return False
         return True
 
+    def strengthen_to_params(self, goal, sfacts, params):
+        lin = dict(goal[0])
+
+        def is_param_var(v):
+            return isinstance(v, tuple) and ((v[0] in ("len", "local", "some") and v[1] in params) or v[0] == "constparam")
+        changed = False
+        for v in list(L.lin_vars(lin)):
+            if is_param_var(v):
+                continue
+            coef = lin[v]
+            repl = None
+            for fl, rel in sfacts:
+                if rel != ">=" or v not in fl:
+                    continue
+                others = [w for w in L.lin_vars(fl) if w != v]
+                if not all(is_param_var(w) for w in others):
+                    continue
+                cv = fl[v]
+                # fl: cv*v + rest >= 0
+                rest = {k_: x_ for k_, x_ in fl.items() if k_ != v}
+                if coef < 0 and cv < 0:       # v <= rest/(-cv): upper bound
+                    repl = L.lin_scale(rest, Fraction(1) / (-cv))
+                elif coef > 0 and cv > 0:     # v >= -rest/cv: lower bound
+                    repl = L.lin_scale(rest, Fraction(-1) / cv)
+                if repl is not None:
+                    break
+            if repl is None:
+                return None
+            del lin[v]
+            lin = L.lin_add(lin, L.lin_scale(repl, coef))
+            changed = True
+        return (lin, ">=") if changed else None
+
     def shape_facts(self, f, goal):
         """interval facts for opaque expression variables occurring in the goal"""
         out = []
@@ -838,6 +880,20 @@ class Discharger:
                     if r:
                         out.append(L.ge(L.lin_var(v), L.lin_const(r[0])))
                         out.append(L.ge(L.lin_const(r[1]), L.lin_var(v)))
+                    # the induction variable of `for i in a..b` / `a..=b`: a <= i < b (<= b)
+                    if e.k == "field" and e.b == "Some.0" and e.a.k == "call" and e.a.a.name == "next":
+                        it = call_arg_exprs(e.a.a)[0]
+                        hops = 0
+                        while it is not None and it.k == "call" and it.a.name in ("into_iter", "iter") and it.a.args and hops < 3:
+                            it = call_arg_exprs(it.a)[0]
+                            hops += 1
+                        if it is not None and it.k == "agg" and (it.a or "").split("::")[-1] in ("Range", "RangeInclusive") and it.c and len(it.c) >= 2:
+                            lc = L.Ctx(f, cm.view_info)
+                            lo_, hi_ = lc.lin(it.c[0]), lc.lin(it.c[1])
+                            if lo_ is not None:
+                                out.append(L.ge(L.lin_var(v), lo_))
+                            if hi_ is not None:
+                                out.append(L.ge(L.lin_add(hi_, L.lin_const(0 if it.a.endswith("RangeInclusive") else -1)), L.lin_var(v)))
                     if e.k == "call" and e.a.path in ("std::cmp::min", "std::cmp::Ord::min"):
                         lc = L.Ctx(f, cm.view_info)
                         for a in call_arg_exprs(e.a):
